@@ -86,7 +86,7 @@ def step (st : State) (toks : List String) : State × String :=
   | ["get", k, id] =>
     match k.toNat?, id.toNat? with
     | some k, some id =>
-      ({ store := s.touch k }, match get s k id with
+      (st, match get s k id with
         | some d => s!"doc {showDoc d}"
         | none => "none")
     | _, _ => (st, "bad-op")
@@ -94,13 +94,13 @@ def step (st : State) (toks : List String) : State × String :=
     match k.toNat?, parseIds ids with
     | some k, some ids =>
       let docs := sortOn (fun d => d.1) (multiGet s k ids.eraseDups)
-      ({ store := s.touch k }, if docs.isEmpty then "docs -" else "docs " ++ ",".intercalate (docs.map showDoc))
+      (st, if docs.isEmpty then "docs -" else "docs " ++ ",".intercalate (docs.map showDoc))
     | _, _ => (st, "bad-op")
   | ["meta", k] =>
     match k.toNat? with
     | some k =>
       let rows := sortOn (fun r => r.1) (iterMetadata s k)
-      ({ store := s.touch k }, if rows.isEmpty then "meta -"
+      (st, if rows.isEmpty then "meta -"
         else "meta " ++ ",".intercalate (rows.map (fun r => s!"{r.1}:{r.2.1}:{if r.2.2 then "t" else "f"}")))
     | none => (st, "bad-op")
   | ["kslist"] =>
